@@ -20,3 +20,49 @@ func archiveReaderFuncs(entry *ssa.Function) []*ssa.Function {
 	}
 	return out
 }
+
+// reachSSAWithValues is reachSSA that also follows functions used as values inside the reached functions: a callback
+// handed over as a method value (`walker.visit`, a bound-method wrapper) or as a named function instead of a literal.
+func reachSSAWithValues(fn *ssa.Function, depth int) []*ssa.Function {
+	seen := map[*ssa.Function]bool{}
+	var out []*ssa.Function
+	var add func(f *ssa.Function, d int)
+	add = func(f *ssa.Function, d int) {
+		for _, g := range reachSSA(f, d) {
+			if seen[g] {
+				continue
+			}
+			seen[g] = true
+			out = append(out, g)
+			if d == 0 {
+				continue
+			}
+			for _, b := range g.Blocks {
+				for _, ins := range b.Instrs {
+					for _, op := range ins.Operands(nil) {
+						if op == nil || *op == nil {
+							continue
+						}
+						var vf *ssa.Function
+						switch t := (*op).(type) {
+						case *ssa.Function:
+							vf = t
+						case *ssa.MakeClosure:
+							vf, _ = t.Fn.(*ssa.Function)
+						}
+						if vf == nil || seen[vf] || len(vf.Blocks) == 0 {
+							continue
+						}
+						// only the module's own functions (and the synthetic wrappers around them)
+						if vf.Pkg != nil && !isModulePkg(vf.Pkg.Pkg) {
+							continue
+						}
+						add(vf, d-1)
+					}
+				}
+			}
+		}
+	}
+	add(fn, depth)
+	return out
+}
